@@ -154,8 +154,9 @@ class Hybrid(object):
 
 
 class Ent(object):
-    def __init__(self, name, base, attrs, hybrids=()):
+    def __init__(self, name, base, attrs, hybrids=(), pk=None):
         self.name, self.base = name, base
+        self.pk = list(pk) if pk else None           # composite primary key: names of the key attributes
         self.own_attrs = [Attr(*a[:3], **(a[3] if len(a) > 3 else {})) for a in attrs]
         self.hybrids = OrderedDict((h.name, h) for h in hybrids)
         for a in self.own_attrs: a.entity = name
@@ -194,7 +195,10 @@ class Schema(object):
         assert len(cands) == 1, (e.name, a.name, [c.name for c in cands])
         return cands[0]
     def pk(self, ename):
-        return 'id'
+        """Names of the primary key attributes of an entity (['id'] unless the root declares a composite key)."""
+        return self.ents[self.ents[ename].root].pk or ['id']
+    def pk_composite(self, ename):
+        return bool(self.ents[self.ents[ename].root].pk)
     def roots(self):
         return [e for e in self.ents.values() if e.base is None]
     def pony_source(self):
@@ -202,6 +206,7 @@ class Schema(object):
         for e in self.ents.values():
             out.append('class %s(%s):' % (e.name, e.base or 'db.Entity'))
             body = [a.pony_decl() for a in e.own_attrs] + [h.pony_decl() for h in e.hybrids.values()]
+            if e.pk: body.append('PrimaryKey(%s)' % ', '.join(e.pk))
             out.extend('    ' + b for b in (body or ['pass']))
         return '\n'.join(out)
 
@@ -209,7 +214,7 @@ class Schema(object):
 S1 = Schema('S1', [
     Ent('Dept', None, [
         ('id', 'pk', 'int'), ('name', 'req', 'str'), ('code', 'opt', 'str'), ('budget', 'opt', 'int'),
-        ('rating', 'opt', 'float'), ('opened', 'opt', 'date'), ('persons', 'set', 'Person')],
+        ('rating', 'opt', 'float'), ('opened', 'opt', 'date'), ('persons', 'set', 'Person'), ('courses', 'set', 'Course')],
         hybrids=[Hybrid('title', 'property', [], "self.name.upper()", 'str'),
                  Hybrid('rich', 'method', [('limit', '5')], "self.budget is not None and self.budget > limit", 'bool')]),
     Ent('Person', None, [
@@ -219,7 +224,7 @@ S1 = Schema('S1', [
         ('salary', 'opt', 'dec'), ('fee', 'req', 'dec'),
         ('dept', 'req', 'Dept'), ('mentor', 'opt', 'Person', {'reverse': 'mentees'}),
         ('mentees', 'set', 'Person', {'reverse': 'mentor'}), ('tags', 'set', 'Tag'),
-        ('passport', 'opt', 'Passport'), ('items', 'set', 'Item')],
+        ('passport', 'opt', 'Passport'), ('items', 'set', 'Item'), ('grades', 'set', 'Grade')],
         hybrids=[Hybrid('label', 'property', [], "self.name + '/' + self.dept.name", 'str'),
                  Hybrid('score0', 'property', [], "coalesce(self.score, 0)", 'int'),
                  Hybrid('older', 'method', [('n', None)], "self.age > n", 'bool'),
@@ -234,7 +239,10 @@ S1 = Schema('S1', [
         hybrids=[Hybrid('total', 'property', [], "self.price * coalesce(self.qty, 1)", 'int')]),
     Ent('Gadget', 'Item', [('volts', 'opt', 'int')]),
     Ent('Book', 'Item', [('pages', 'opt', 'int')]),
-], sizes={'Dept': (2, 3), 'Person': (5, 7), 'Passport': (2, 3), 'Tag': (3, 4), 'Item': (5, 7)})
+    Ent('Course', None, [('name', 'req', 'str'), ('semester', 'req', 'int'), ('credits', 'req', 'int'), ('room', 'opt', 'str', {'nullable': True}),
+                         ('dept', 'opt', 'Dept')], pk=['name', 'semester']),
+    Ent('Grade', None, [('person', 'req', 'Person'), ('subject', 'req', 'str'), ('mark', 'opt', 'int')], pk=['person', 'subject']),
+], sizes={'Dept': (2, 3), 'Person': (5, 7), 'Passport': (2, 3), 'Tag': (3, 4), 'Item': (5, 7), 'Course': (4, 6), 'Grade': (4, 7)})
 
 SCHEMAS = {'S1': S1}
 
@@ -270,11 +278,27 @@ def gen_data(schema, rng, neutral=False, flavor=None):
     for root in schema.roots():
         rows = []
         tree = [root.name] + root.subclasses
-        for i in range(1, nrows[root.name] + 1):
+        keys = None
+        if root.pk:
+            # composite key: unique combinations over SMALL per-attribute pools, so every key part repeats across rows
+            pools = []
+            for k in root.pk:
+                a = root.attrs[k]
+                if a.is_scalar:
+                    vals = [v for v in sub[a.typ] if not isinstance(v, str) or v.strip()] or [dom[a.typ][0]]
+                    pools.append(vals[:3] if len(vals) >= 2 else (vals + [dom[a.typ][1]]))
+                else: pools.append([t['id'] for t in data[schema.ents[a.typ].root]][:4])
+            combos = list(itertools.product(*pools)); rng.shuffle(combos)
+            keys = combos[:nrows[root.name]]
+        for i in range(1, (len(keys) if keys is not None else nrows[root.name]) + 1):
             cls = rng.choice(tree) if len(tree) > 1 else root.name
             e = schema.ents[cls]
             row = OrderedDict(_cls=cls)
+            if keys is not None:
+                row['id'] = list(keys[i - 1])
+                for k, v in zip(root.pk, keys[i - 1]): row[k] = v
             for a in e.attrs.values():
+                if a.name in row: continue
                 if a.kind == 'pk': row[a.name] = i
                 elif a.is_scalar:
                     if a.kind == 'opt' and a.nullable and rng.random() < p_none: row[a.name] = None
@@ -291,7 +315,7 @@ def gen_data(schema, rng, neutral=False, flavor=None):
         for row in data[root.name]:
             e = schema.ents[row['_cls']]
             for a in e.attrs.values():
-                if a.is_scalar: continue
+                if a.is_scalar or a.name in row: continue
                 target_rows = data[schema.ents[a.typ].root]
                 rev = a.reverse
                 if a.is_ref:
@@ -317,8 +341,14 @@ def gen_data(schema, rng, neutral=False, flavor=None):
 # ----------------------------------------------------------------------------------------------------------------
 # 3. mirror objects + pony environment
 # ----------------------------------------------------------------------------------------------------------------
+def row_key(row):
+    """Primary key value of a data row: the `id` field (a list for composite keys -> tuple)."""
+    k = row['id']
+    return tuple(k) if isinstance(k, list) else k
+
+
 class MObj(object):
-    """Plain python mirror of one entity instance."""
+    """Plain python mirror of one entity instance (.id is always the primary key VALUE, a tuple for composite keys)."""
     _ent = None; _root = None
     def __repr__(self): return '%s[%r]' % (self._ent, self.id)
 
@@ -339,12 +369,13 @@ class Mirror(object):
                 e = schema.ents[row['_cls']]
                 for a in e.attrs.values():
                     setattr(o, a.name, set() if a.is_set else (row.get(a.name) if a.is_scalar else None))
-                self.by_pk[root, row['id']] = o
+                o.id = row_key(row)
+                self.by_pk[root, row_key(row)] = o
                 for en in schema.ents:
                     if schema.is_sub(row['_cls'], en): self.objs[en].append(o)
         for root, rows in data.items():
             for row in rows:
-                o = self.by_pk[root, row['id']]
+                o = self.by_pk[root, row_key(row)]
                 e = schema.ents[row['_cls']]
                 for a in e.attrs.values():
                     if a.is_scalar or a.name not in row or row[a.name] is None: continue
@@ -408,11 +439,11 @@ class Env(object):
                             if row.get(a.name) is not None: kw[a.name] = row[a.name]
                         elif a.is_ref and a.kind == 'req' and a.name in row:
                             kw[a.name] = objs[schema.ents[a.typ].root, row[a.name]]
-                    objs[root.name, row['id']] = self.ns[row['_cls']](**kw)
+                    objs[root.name, row_key(row)] = self.ns[row['_cls']](**kw)
             for root in schema.roots():
                 for row in d.get(root.name, []):
                     e = schema.ents[row['_cls']]
-                    o = objs[root.name, row['id']]
+                    o = objs[root.name, row_key(row)]
                     for a in e.attrs.values():
                         if a.is_scalar or a.name not in row or row[a.name] is None: continue
                         troot = schema.ents[a.typ].root
@@ -581,7 +612,7 @@ class Result(object):
 
 def norm_pony(v, Entity):
     if isinstance(v, Entity):
-        return ('@', v.__class__._root_.__name__, v._pk_, v.__class__.__name__)
+        return ('@', v.__class__._root_.__name__, v.get_pk(), v.__class__.__name__)
     if isinstance(v, tuple): return tuple(norm_pony(i, Entity) for i in v)
     return v
 
@@ -1242,13 +1273,14 @@ class Interp(object):
         if not items: return False
         if x is None: return U
         res, saw_none = False, False
+        subq = rnode is not None and not isinstance(rnode, (ast.List, ast.Tuple, ast.Name, ast.Constant))
         for it in items:
             if it is None: saw_none = True; continue
             r = self.compare(ast.Eq(), x, it)
             if r is True: return True
             if r is U: saw_none = True
-        if saw_none: return self.amb()
-        return False
+        if saw_none and not subq: return self.amb()      # literal/parameter list containing None: IN (.., NULL) is unknown in SQL
+        return False                                     # subquery / collection: a missing element is simply not x
 
     def ev_Subscript(self, node, env):
         s = self.ev(node.value, env)
@@ -1270,14 +1302,9 @@ class Interp(object):
                 if isinstance(n, ast.Name) and n.id in self.params: return True, self.params[n.id]
                 return False, None
             ok1, v1 = static_int(sl.lower); ok2, v2 = static_int(sl.upper)
-            if ok1 and v1 in (None, 0) and ((ok2 and v2 == -1) or (not ok2 and sl.upper is not None)) \
-                    and not self.is_external(node):
+            if ok1 and ok2 and v1 in (None, 0) and v2 == -1 and not self.is_external(node):
                 self.sites.add('slice_stop_m1')
                 if 'slice_stop_m1' in self.dev: return s
-            elif ok1 and not ok2 and sl.upper is not None and self.is_external(node.value):
-                # constant string, constant start, expression stop: folded with the sentinel stop -1
-                self.sites.add('slice_stop_m1')
-                if 'slice_stop_m1' in self.dev: return s[(v1 or 0):-1]
             return s[lo:hi]
         i = self.ev(sl, env)
         if i is None or s is None: return self.nullprop()
@@ -2170,6 +2197,16 @@ def reference(program, mirror, dev=()):
             is_entity = isinstance(et, tuple) and et[0] == 'ent'
             rr.mode = 'set'
             rr.no_dups = is_entity
+            g0 = tree.generators[0]
+            if len(tree.generators) == 1 and isinstance(g0.target, ast.Name) and isinstance(g0.iter, ast.Name) \
+                    and g0.iter.id in it.schema.ents and not is_entity:
+                # one loop over an entity: pony documents an implicit DISTINCT unless the projection contains the object
+                # or its WHOLE primary key -- in which case every selected object gives exactly one row
+                var, pkn = g0.target.id, it.schema.pk(g0.iter.id)
+                elts = tree.elt.elts if isinstance(tree.elt, ast.Tuple) else [tree.elt]
+                direct = {e.attr for e in elts if isinstance(e, ast.Attribute) and isinstance(e.value, ast.Name) and e.value.id == var}
+                if any(isinstance(e, ast.Name) and e.id == var for e in elts) or set(pkn) <= direct: rr.mode = 'bag'
+                else: rr.no_dups = True
             rr._rows, rr._tree, rr._it, rr._is_entity = rows, tree, it, is_entity
     except RecursionError:
         raise Unsupported('recursion')
@@ -2191,6 +2228,11 @@ def reference(program, mirror, dev=()):
                 rr.sites.add('dec_param_text')
                 if 'dec_param_text' in it.dev: rr.order_check = None
         else: raise Unsupported('chain step %s in reference()' % op)
+    if it.dectext_projected: rr.sites.add('dec_param_text')
+    for sw in ('dec_param_text', 'bool_arith_bool', 'date_param_delta'):
+        # values that differ in the database (text '0.00' vs number 0, -1 vs 1 typed bool, datetime text vs date text) but
+        # coincide after pony's result conversion: DISTINCT cannot merge them
+        if sw in rr.sites and sw in it.dev: rr.no_dups = False
     return rr
 
 
@@ -2288,8 +2330,10 @@ def compare(result, rr):
     if extra:
         if rr.flagged: return 'no_reference', 'surplus rows while python would raise on some row'
         return 'disagree', 'surplus rows %s' % sorted(map(repr, extra))[:6]
-    if rr.no_dups and len(set(prow)) != len(prow):
-        return 'disagree', 'duplicates in a result that must not contain any'
+    if rr.no_dups:
+        try: dup = len(set(result.rows)) != len(result.rows)          # exact values: 2 and 1.9999999999999998 are distinct rows
+        except TypeError: dup = len(set(prow)) != len(prow)
+        if dup: return 'disagree', 'duplicates in a result that must not contain any'
     if rr.order_check is not None:
         bad = rr.order_check(prow)
         if bad: return 'disagree', 'ordering: ' + bad
@@ -2310,9 +2354,10 @@ class Verdict(object):
         return w
 
 
-def judge(env, program, dev_rules=None, result=None):
+def judge(env, program, dev_rules=None, result=None, shape_rules=None):
     """Run the program, compute the reference, compare, and re-judge a disagreement under the deviation rules."""
     dev_rules = DEVIATIONS if dev_rules is None else dev_rules
+    shape_rules = SHAPE_RULES if shape_rules is None else shape_rules
     if result is None: result = run_program(env, program)
     if result.kind == 'raised':
         if result.exc == 'HarnessSyntaxError': return Verdict('unsupported', program, result, detail=result.exc_msg)
@@ -2358,7 +2403,7 @@ def judge(env, program, dev_rules=None, result=None):
                 return v
         if all_sites == before: break
     rr.sites |= all_sites
-    for sname, fid in SHAPE_RULES.items():
+    for sname, fid in shape_rules.items():
         if sname in rr.sites:
             v = Verdict('known', program, result, rr, detail, findings=[fid])
             v.by_shape = True
@@ -2873,7 +2918,7 @@ class ProgramGen(object):
         shape = shape or rng.choices([s for s, w in self.SHAPES], [w for s, w in self.SHAPES])[0]
         D = rng.randint(1, self.max_depth)
         roots = [e.name for e in self.schema.ents.values()]
-        main = rng.choice(['Person', 'Person', 'Person', 'Item', 'Dept', 'Tag', 'Passport', 'Gadget', 'Book'])
+        main = rng.choice(['Person', 'Person', 'Person', 'Item', 'Dept', 'Tag', 'Passport', 'Gadget', 'Book', 'Course', 'Course', 'Grade'])
         if main not in self.schema.ents: main = roots[0]
         lam = None
         chain = []
@@ -2985,7 +3030,15 @@ class ProgramGen(object):
             typ = rng.choice(self.types)
             items.append(self.gen(typ, D).t); self.use('proj.' + typ)
         if rng.random() < 0.5 and self.vars:
-            items.insert(0, '%s.id' % self.vars[0][0]); self.use('proj.pk')
+            var, en = self.vars[0]
+            pk = self.schema.pk(en)
+            if len(pk) > 1 and rng.random() < 0.6:
+                part = rng.sample(pk, rng.randint(1, len(pk) - 1))        # part of a composite key: still a set
+                for k in part: items.insert(0, '%s.%s' % (var, k))
+                self.use('proj.partial_pk')
+            else:
+                for k in reversed(pk): items.insert(0, '%s.%s' % (var, k))
+                self.use('proj.pk')
         if len(items) == 1: return items[0] if not items[0].startswith('(') or True else items[0]
         return '(%s)' % ', '.join(items)
 
@@ -3045,8 +3098,8 @@ class ProgramGen(object):
             ks = rng.sample(scal, min(len(scal), rng.choice([1, 1, 2])))
             r = rng.random()
             if r < 0.35:
-                return [method, 'attrs', [[en, a.name, rng.random() < 0.4] for a in ks] + [[en, 'id', rng.random() < 0.3]]]
-            parts = [('desc(%s.%s)' if rng.random() < 0.4 else '%s.%s') % (var, a.name) for a in ks] + ['%s.id' % var]
+                return [method, 'attrs', [[en, a.name, rng.random() < 0.4] for a in ks] + [[en, k, rng.random() < 0.3] for k in self.schema.pk(en)]]
+            parts = [('desc(%s.%s)' if rng.random() < 0.4 else '%s.%s') % (var, a.name) for a in ks] + ['%s.%s' % (var, k) for k in self.schema.pk(en)]
             if r < 0.7: return [method, 'lambda', 'lambda %s: (%s)' % (var, ', '.join(parts))]
             return [method, 'str', ', '.join(parts)]
         n = len(tree.elt.elts) if isinstance(tree.elt, ast.Tuple) else 1
@@ -3116,8 +3169,13 @@ class ProgramGen(object):
                 yield Program(src, {}, 'gen', [], {'ent': ename, 'var': var, 'cond': text}, list(prods) + ['shape.filter'], self.schema.name)
             for typ in self.types:
                 for text, atomic, prods in exprs(typ, ops):
-                    src = '(%s.id, %s) for %s in %s' % (var, text, var, ename)
+                    pk = self.schema.pk(ename)
+                    src = '(%s, %s) for %s in %s' % (', '.join('%s.%s' % (var, k) for k in pk), text, var, ename)
                     yield Program(src, {}, 'gen', [], None, list(prods) + ['shape.proj'], self.schema.name)
+                    if len(pk) > 1:      # part of a composite key (implicit DISTINCT applies), and no key at all
+                        src = '(%s.%s, %s) for %s in %s' % (var, pk[0], text, var, ename)
+                        yield Program(src, {}, 'gen', [], None, list(prods) + ['shape.proj', 'proj.partial_pk'], self.schema.name)
+                        yield Program('%s for %s in %s' % (text, var, ename), {}, 'gen', [], None, list(prods) + ['shape.proj'], self.schema.name)
 
 
 # ----------------------------------------------------------------------------------------------------------------
